@@ -215,17 +215,23 @@ class RSAKey(PKey):
                 raise SSHException(str(e))
         elif pkformat == self._PRIVATE_KEY_FORMAT_OPENSSH:
             n, e, d, iqmp, p, q = self._uint32_cstruct_unpack(data, "iiiiii")
-            public_numbers = rsa.RSAPublicNumbers(e=e, n=n)
-            key = rsa.RSAPrivateNumbers(
-                p=p,
-                q=q,
-                d=d,
-                dmp1=d % (p - 1),
-                dmq1=d % (q - 1),
-                iqmp=iqmp,
-                public_numbers=public_numbers,
-            ).private_key(default_backend())
+            try:
+                public_numbers = rsa.RSAPublicNumbers(e=e, n=n)
+                key = rsa.RSAPrivateNumbers(
+                    p=p,
+                    q=q,
+                    d=d,
+                    dmp1=d % (p - 1),
+                    dmq1=d % (q - 1),
+                    iqmp=iqmp,
+                    public_numbers=public_numbers,
+                ).private_key(default_backend())
+            except (ValueError, TypeError, ZeroDivisionError) as e:
+                # numbers that do not make up an RSA key
+                raise SSHException(str(e))
         else:
             self._got_bad_key_format_id(pkformat)
-        assert isinstance(key, rsa.RSAPrivateKey)
+        if not isinstance(key, rsa.RSAPrivateKey):
+            # e.g. some other kind of key inside an "RSA PRIVATE KEY" frame
+            raise SSHException("Not an RSA private key")
         self.key = key
